@@ -15,6 +15,8 @@ func init() {
 		Decides: []string{
 			"which components are inherited from the base, nulled or reset on every path of every state clause (SM-inherit)",
 			"the set of 'return failure' points of the URL, host, opaque-host, IPv4 and IPv6 parsers, each really aborting (SM-failpoints)",
+			"the transition relation: per state and class of the current code point, the set of possible outcomes (next state / stay / failure) equals the standard's table (SM-transitions)",
+			"the counter values for which the number parsers and the port state reject (TAB-thresholds)",
 			"percent-encode sets, ASCII classes, forbidden host/domain code points, special schemes, dot-segment literals, whitespace sets equal the standard's (TAB-*)",
 			"which encode set each component writer uses (TAB-component); strconv never sees unvalidated text; exactly one bracket pair is stripped (FLOW-strconv, FLOW-brackets)",
 			"the IPv6 serializer prints the standard's pieces, separators and '::' for each of the 256 zero/non-zero patterns of the pieces (TAB-ipv6ser)",
@@ -28,6 +30,7 @@ func init() {
 			"main loop ranking: head advances, exits on eof, no staying path rewinds, state graph acyclic (SM-rank)",
 			"base is never dereferenced when nil; url.query is non-nil wherever stored through; a parse returns a non-nil URL or a non-nil error (SM-base, SM-query, SM-result)",
 			"every index/slice expression, nullable-field dereference, type assertion, loop and library call with a panicking contract is discharged by a dominating fact, an idiom, or a reviewed invariant (PF-*)",
+			"a pointer or interface obtained together with an error or an ok flag is dereferenced only where the branch facts establish err == nil / ok, per incoming edge and through value/error phi pairs (PF-errnil)",
 		},
 		NotDecided:  []string{"stack/heap exhaustion", "panics inside dependencies on valid arguments", "the hand-proved invariants of /verif/tables/index.json (listed as assumptions)"},
 		Assumptions: commonAssumptions})
@@ -53,12 +56,12 @@ func init() {
 		Assumptions: commonAssumptions})
 	describe(&PropertyDoc{ID: "C07",
 		Explanation: "Structural facts of IPv4 host recognition.",
-		Decides:     []string{"no sign-accepting strconv conversion sees text that was not validated against the digit set of its radix (FLOW-strconv)", "the IPv4 parser runs only for special hosts that end in a number (FLOW-ipv4)", "the radix and stripped prefix that reach the conversion equal the standard's table on every realisable valuation of the prefix/length tests (TAB-ipv4prefix)", "no integer conversion of a parsed number loses a value the parse can return (FLOW-width)", "rejection points are the standard's (SM-failpoints rows)", "digit tables are exact (TAB-ascii)"},
+		Decides:     []string{"no sign-accepting strconv conversion sees text that was not validated against the digit set of its radix (FLOW-strconv)", "the IPv4 parser runs only for special hosts that end in a number (FLOW-ipv4)", "the radix and stripped prefix that reach the conversion equal the standard's table on every realisable valuation of the prefix/length tests (TAB-ipv4prefix)", "no integer conversion of a parsed number loses a value the parse can return (FLOW-width)", "rejection points are the standard's (SM-failpoints rows)", "more than four parts and a non-last part above 255 are exactly the counter values rejected (TAB-thresholds)", "digit tables are exact (TAB-ascii)"},
 		NotDecided:  []string{"assembly of the 32-bit value from the parts, and serialisation", "the ends-in-a-number decision beyond its call structure"},
 		Assumptions: commonAssumptions})
 	describe(&PropertyDoc{ID: "C08",
 		Explanation: "Structural facts of IPv6 host acceptance.",
-		Decides:     []string{"exactly the first and last byte are removed from a host tested to start with '[' and end with ']' (FLOW-brackets)", "every validation error of the IPv6 parser is an aborting failure; the 13 failure points are the standard's (SM-failpoints)", "multiply-and-add accumulators of the address parser are bounded inside their loops: they cannot wrap (FLOW-accum)", "hex digit value functions are exact on 0-9, a-f, A-F (TAB-hexval)", "the serializer uses a piece only to compare it with 0 and to format it in base 16; for each of the 256 zero/non-zero patterns its output has the standard's pieces, separators and '::' (TAB-ipv6ser, abstract interpretation)", "the part of the parser behind its last read of the text: too-few-pieces failure, placement of the pieces around '::', brackets — for each of the 45 (pieces read, place of '::') states, pieces as opaque tokens (TAB-ipv6place, abstract interpretation)"},
+		Decides:     []string{"exactly the first and last byte are removed from a host tested to start with '[' and end with ']' (FLOW-brackets)", "every validation error of the IPv6 parser is an aborting failure; the 13 failure points are the standard's (SM-failpoints)", "multiply-and-add accumulators of the address parser are bounded inside their loops: they cannot wrap (FLOW-accum)", "hex digit value functions are exact on 0-9, a-f, A-F (TAB-hexval)", "what the hex-piece accumulator can reach in its constant number of rounds fits the type it is narrowed to (FLOW-accum)", "the counter values for which the parser rejects - ninth piece, dotted part without two free pieces, '.' after zero digits, fifth dotted number or fewer than four, digit after a leading 0, dotted number above 255, fewer than eight pieces without '::' - are exactly the standard's (TAB-thresholds)", "the serializer uses a piece only to compare it with 0 and to format it in base 16; for each of the 256 zero/non-zero patterns its output has the standard's pieces, separators and '::' (TAB-ipv6ser, abstract interpretation)", "the part of the parser behind its last read of the text: too-few-pieces failure, placement of the pieces around '::', brackets — for each of the 45 (pieces read, place of '::') states, pieces as opaque tokens (TAB-ipv6place, abstract interpretation)"},
 		NotDecided:  []string{"the reading loop's per-character behaviour beyond its failure points", "that the hex text of a piece is minimal lower case (strconv's contract)"},
 		Assumptions: append([]string{"TAB-ipv6place: at the end of the reading loop the pieces from index pieceIdx on are still zero and 0 ≤ pieceIdx ≤ 8 (reviewed; the rule itself checks that compress is only ever set to the piece count or the one 'none' constant)"}, commonAssumptions...)})
 	describe(&PropertyDoc{ID: "C09",
@@ -78,7 +81,7 @@ func init() {
 		Assumptions: commonAssumptions})
 	describe(&PropertyDoc{ID: "C12",
 		Explanation: "Coherence facts that hold per call, hence under every interleaving.",
-		Decides:     []string{"every list mutator writes through after its last write (PAIR-update); update() stores the list's own serialization", "the search setter empties / re-initialises the existing list object in place; list objects of existing URLs are never replaced (PAIR-handle)", "a list stored into a URL writes through to that URL and no other (EFF-backptr)"},
+		Decides:     []string{"every list mutator writes through after its last write (PAIR-update); update() stores the list's own serialization, and reaches the store whenever a URL is attached and the serialization is non-empty or the URL has a query", "functions outside the list's methods that replace the pairs of an attached list end with update() or set that URL's query themselves (PAIR-update)", "the search setter empties / re-initialises the existing list object in place; list objects of existing URLs are never replaced (PAIR-handle)", "a list stored into a URL writes through to that URL and no other (EFF-backptr)"},
 		NotDecided:  []string{"that update()/init() compute the right strings (C11)"},
 		Assumptions: commonAssumptions})
 	describe(&PropertyDoc{ID: "C13",
@@ -108,8 +111,8 @@ func init() {
 		Assumptions: commonAssumptions})
 	describe(&PropertyDoc{ID: "C19",
 		Explanation: "Caches cannot go stale, or do not exist, in every reachable state.",
-		Decides:     []string{"port and decodedPort are always stored together; address-kind accessors derive from the host; 'present' decisions test the primary's nil-ness (PAIR-group)", "default ports are the standard's (TAB-schemes)"},
-		NotDecided:  []string{"the textual definition of 'is a dotted-decimal IPv4 address' used by the derived accessor"},
+		Decides:     []string{"port and decodedPort are always stored together; address-kind accessors derive from the host; 'present' decisions test the primary's nil-ness (PAIR-group)", "default ports are the standard's (TAB-schemes)", "the recogniser of dotted-decimal IPv4 text rejects for exactly: not four parts, a part longer than three digits, a part above 255 (TAB-thresholds)"},
+		NotDecided:  []string{"the rest of the textual definition of 'is a dotted-decimal IPv4 address' (digits only, no leading zero)"},
 		Assumptions: commonAssumptions})
 	describe(&PropertyDoc{ID: "C20",
 		Explanation: "Absence of the two super-linear mechanisms the anchors name, in module code.",
